@@ -219,6 +219,20 @@ impl<'a, 'tcx> D<'a, 'tcx> {
                 let ps: Vec<J> = pats.iter().map(|x| self.pat(x)).collect();
                 o.set("pats", J::Arr(ps));
             }
+            hir::PatKind::Slice(before, mid, after) => {
+                o.set("k", J::s("Slice"));
+                let mut ps: Vec<J> = before.iter().map(|x| self.pat(x)).collect();
+                o.set("n_before", J::Int(before.len() as i128));
+                o.set("rest", J::Bool(mid.is_some()));
+                if let Some(m) = mid {
+                    let mj = self.pat(m);
+                    o.set("rest_pat", mj);
+                }
+                let mut af: Vec<J> = after.iter().map(|x| self.pat(x)).collect();
+                o.set("n_after", J::Int(after.len() as i128));
+                ps.append(&mut af);
+                o.set("pats", J::Arr(ps));
+            }
             hir::PatKind::Box(inner) => {
                 o.set("k", J::s("Box"));
                 let ij = self.pat(inner);
